@@ -146,7 +146,7 @@ def main():
             done += 1
             key = 'expressions' if 'expressions' in rel else os.path.basename(rel)
             caught = None
-            env = dict(os.environ, VERIF_REPO=wt, VERIF_JOBS=os.environ.get('MUT_JOBS', '8'))
+            env = dict(os.environ, VERIF_REPO=wt, VERIF_EVIDENCE_DIR='/tmp/mutc/evidence', VERIF_JOBS=os.environ.get('MUT_JOBS', '8'))
             for c in CHECKS_FOR[key]:
                 rc2, txt2 = run([os.path.join(HERE, 'check'), c, '--tier', 'quick'], HERE, 2400, env)
                 if rc2 == 1 and 'VIOLATION' in txt2:
